@@ -1,5 +1,5 @@
 (* Model/Analytics.v — analytics/dependency_resolver.go, placeholder_resolver.go, impact_analysis.go *)
-From Coq Require Import List String Ascii ZArith Lia Bool Arith.
+From Coq Require Import List String Ascii ZArith Lia Bool Arith DecimalString.
 From YT Require Import Base.Str Base.KV Base.Sort Model.Doc Model.Dom Model.Path Model.Builder Model.Merge
   Model.Overlay Model.Resolver.
 Import ListNotations.
@@ -18,11 +18,14 @@ Definition prefixb (p s : string) : bool := prefix_l (la p) (la s).
 Definition suffixb (p s : string) : bool := prefix_l (rev (la p)) (rev (la s)).
 Definition containsb (p s : string) : bool := contains_l (la p) (la s).
 
+(* decimal rendering straight from the binary number (never through unary nat: values such as
+   2^63-1 occur) *)
+Definition pos2s (p : positive) : string := NilZero.string_of_uint (Pos.to_uint p).
 Definition z2s (z : Z) : string :=
   match z with
   | Z0 => "0"%string
-  | Zpos p => nat2s (Pos.to_nat p)
-  | Zneg p => ("-" ++ nat2s (Pos.to_nat p))%string
+  | Zpos p => pos2s p
+  | Zneg p => ("-" ++ pos2s p)%string
   end.
 
 (* fmt.Sprintf("%v", leaf.Value()) *)
